@@ -538,6 +538,83 @@ DECOS = [
 ]
 
 
+def cli_bytes_case(ck, inp, tag):
+    """real CLI in a child process: a failing build and a failing run print raw bytes that are not UTF-8; the build
+    log is written, the error is shown by the real UI on a strict UTF-8 stdout; the other run is not disturbed"""
+    import drive_cli_a as cli
+    wd = c04._mkwd(ck)
+    text = bytes(inp['bytes'])
+    cli.write_harness(wd, {'B0': [(0, b'', 1)] * 3, 'B1': [(inp.get('rc1', 1), text, 0), (0, text, 1), (0, b'', 1)],
+                           'B2': [(0, b'', 1)] * 3})
+    builds = {0: "printf '%s\\n'; printf '%s\\n' >&2; exit %d" % (cli._octal(text), cli._octal(text), inp.get('build_rc', 1))}
+    conf = cli.base_config(wd, {'B0': {'N': 1, 'retries': 0, 'exe': 0}, 'B1': {'N': 2, 'retries': 2, 'exe': 1},
+                                'B2': {'N': 2, 'retries': 0, 'exe': 2}}, builds=builds)
+    obs = cli.run_cli(wd, conf, argv=inp.get('argv') or [])
+    ck.impl_traces += 1
+    ck.count('real-cli:bytes in build and harness output')
+    st = {}
+    for a in obs['starts']:
+        st.setdefault(a[0], []).append(int(a[1]))
+    ck.case(nontrivial_key=(tag, str(inp)), sample={'real_cli': True, 'exit': obs['exit'], 'starts': st})
+    b0_expected = [] if inp.get('build_rc', 1) != 0 else [1]
+    expected_exit = 1 if inp.get('build_rc', 1) != 0 else 0
+    detail = {'exit': obs['exit'], 'starts': st, 'stderr': obs['stderr_tail'][-300:]}
+    if obs['traceback'] or obs['exit'] not in (0, 1):
+        ck.oracle_fail('no_traceback', inp, detail,
+                       signature={'real_cli': True,
+                                  'exception': 'UnicodeEncodeError' if 'UnicodeEncodeError' in obs['stderr_tail'] else 'other'})
+    elif st.get('B0', []) != b0_expected or st.get('B1', []) != [1, 1, 2] or st.get('B2', []) != [1, 2]:
+        ck.oracle_fail('containment', inp, detail, signature={'real_cli': True, 'behaviour_of_run': 'ok'})
+    elif obs['exit'] != expected_exit:
+        ck.oracle_fail('exit_status', inp, detail, signature={'real_cli': True, 'expected': expected_exit, 'got': obs['exit']})
+
+
+def cli_interrupt_case(ck, inp, tag):
+    """real CLI, parallel scheduler (non-exclusive runs, the machine's cores), SIGINT / SIGTERM while the worker
+    threads are inside an invocation: exit status 2 and nothing that looks like a traceback on stdout / stderr"""
+    import signal
+    import drive_cli_a as cli
+    wd = c04._mkwd(ck)
+    n = inp['runs']
+    cli.write_harness(wd, dict(('B%d' % i, [(0, b'', 1, 4)] * 3) for i in range(n)))
+    conf = cli.base_config(wd, dict(('B%d' % i, {'N': 2, 'retries': 0, 'exe': i, 'excl': not inp.get('parallel', True)})
+                                    for i in range(n)))
+    obs = cli.run_cli_interrupt(wd, conf, inp.get('wait_starts', 2), signal.SIGINT if inp['signal'] == 'INT' else signal.SIGTERM,
+                                argv=inp.get('argv') or [])
+    ck.impl_traces += 1
+    ck.count('real-cli:interrupt %s (%s)' % (inp['signal'], 'parallel' if inp.get('parallel', True) else 'sequential'))
+    ck.case(nontrivial_key=(tag, str(inp)), sample={'real_cli_interrupt': inp['signal'], 'exit': obs['exit']})
+    if not obs['delivered']:
+        ck.notes.append('interrupt slice: the session ended before the signal could be sent')
+        return
+    detail = {'exit': obs['exit'], 'stderr': obs['stderr_tail'][-500:], 'starts_seen': obs['starts_seen']}
+    if obs['traceback'] or obs['thread_exception']:
+        ck.oracle_fail('no_traceback', inp, detail,
+                       signature={'real_cli': True, 'interrupted': inp['signal'],
+                                  'in_thread': obs['thread_exception']})
+    elif obs['exit'] != 2:
+        ck.oracle_fail('exit_status', inp, detail, signature={'real_cli': True, 'expected': 'aborted', 'got': obs['exit']})
+
+
+def cli_interrupt_slice(ck):
+    rng = ck.rng
+    cases = [{'signal': 'INT', 'parallel': True}, {'signal': 'TERM', 'parallel': True}, {'signal': 'INT', 'parallel': False}]
+    if ck.tier != 'quick':
+        cases = cases * 4
+    for c in cases:
+        cli_interrupt_case(ck, dict(c, kind='cli-interrupt', runs=rng.randint(3, 5), wait_starts=2 if c['parallel'] else 1,
+                                    argv=rng.choice([[], ['-s', 'round-robin']])), 'cli-int')
+
+
+def cli_bytes_slice(ck):
+    import drive_cli_a as cli
+    rng = ck.rng
+    for i in range(3 if ck.tier == 'quick' else 20):
+        cli_bytes_case(ck, {'kind': 'cli-bytes', 'bytes': list(cli.BYTE_TEXTS[i % 3] if i < 3 else rng.choice(cli.BYTE_TEXTS[:4])),
+                            'build_rc': rng.choice([1, 1, 0]), 'rc1': rng.choice([1, 2]),
+                            'argv': rng.choice([[], [], ['-v']])}, 'cli')
+
+
 def load_corpus(ck):
     d = os.path.join(lib.VERIF, 'harness', 'corpus', 'C10')
     out = []
@@ -549,7 +626,11 @@ def load_corpus(ck):
 
 
 def run_input(ck, inp, tag):
-    if inp.get('kind') == 'usage':
+    if inp.get('kind') == 'cli-interrupt':
+        cli_interrupt_case(ck, inp, tag)
+    elif inp.get('kind') == 'cli-bytes':
+        cli_bytes_case(ck, inp, tag)
+    elif inp.get('kind') == 'usage':
         usage_cases(ck)
     else:
         run_scenario(ck, inp['scn'], inp['scripts'], inp.get('sched', 'batch'), inp.get('choices') or [],
@@ -617,6 +698,8 @@ def run(ck):
                          'abort', stop_at=k, with_control=False)
 
 
+    cli_bytes_slice(ck)
+    cli_interrupt_slice(ck)
     c04.queue_of(ck).flush()
     sigs = {}
     for f in ck.oracle_failures:
